@@ -148,12 +148,14 @@ def load_known(pid):
     return [f for f in data.get("findings", []) if f.get("property") == pid]
 
 
-def write_replay(pid, tier, seed, viol):
+def write_replay(pid, tier, seed, viol, jobs=None):
     d = os.path.join(ROOT, "replays", pid)
     os.makedirs(d, exist_ok=True)
     body = {"property": pid, "tier": tier, "seed": seed, "mechanism": viol["mechanism"],
             "message": viol["message"], "case": viol.get("case"), "trace": viol.get("trace"),
             "shard": viol.get("shard")}
+    if jobs is not None and isinstance(viol.get("shard"), int) and viol["shard"] < len(jobs):
+        body["shard_desc"] = jobs[viol["shard"]].get("desc")     # lets --replay re-run the whole (deterministic) shard
     sha = hashlib.sha1(json.dumps(body, sort_keys=True).encode()).hexdigest()[:12]
     path = os.path.join(d, sha + ".json")
     with open(path, "w") as fh:
@@ -191,8 +193,13 @@ def main(argv=None):
     if args.replay:
         with open(args.replay) as fh:
             rep = json.load(fh)
+        stateless = getattr(prop, "REPLAY_CASES", True) and rep.get("case") is not None and not rep.get("force_shard")
         jobs = [{"tier": rep.get("tier", tier), "seed": rep.get("seed", seed), "shard": rep.get("shard", 0),
                  "desc": None, "replay_case": rep["case"]}]
+        if rep.get("shard_desc") is not None:
+            # also re-run the shard the witness came from (histories are stateful; generators are pure functions of the descriptor)
+            jobs.append({"tier": rep.get("tier", tier), "seed": rep.get("seed", seed), "shard": rep.get("shard", 0),
+                         "desc": rep["shard_desc"]})
         tier, seed = jobs[0]["tier"], jobs[0]["seed"]
     else:
         descs = prop.plan(tier, seed)
@@ -276,7 +283,7 @@ def main(argv=None):
               f"({'observed %d times' % n if n else 'not exercised in this run'})")
     if unknown_mechs:
         for m, v in sorted(unknown_mechs.items()):
-            path = write_replay(pid, tier, seed, v)
+            path = write_replay(pid, tier, seed, v, jobs)
             print(f"VIOLATION property={pid} replay={path}")
             print(f"  mechanism={m} count={tot['violation_counts'].get(m, 0)}")
             print(f"  {v['message'][:600]}")
@@ -286,7 +293,7 @@ def main(argv=None):
             print(f"INCONCLUSIVE property={pid} reason={r}")
         return 2
     if args.replay:
-        print(f"[{pid}] replay: no violation reproduced")
+        print(f"[{pid}] replay: no violation reproduced (case replay{' and shard re-run' if len(jobs) > 1 else ''})")
     else:
         print(f"[{pid}] held on everything explored")
     return 0
